@@ -514,7 +514,7 @@ def adjacent_strings(t):
     ps = t[-1]
     return any(a[0] == 0 and b[0] == 0 for a, b in zip(ps, ps[1:])) or any(adjacent_strings(p) for p in ps)
 
-def oracle_latex(tree, out):
+def oracle_latex(tree, out, real=None):
     strs = [S(x) for x in tree_strings(tree, [])]
     lv = leaves(tree)
     chars = [a for a, _ in lv if isinstance(a, str)]
@@ -552,7 +552,8 @@ def oracle_latex(tree, out):
     if [g[:2] for g in got] != [e[:2] for e in exp]:
         return 'LaTeX output: characters %r differ from the text %r: %r' % ([g[1] for g in got][:40], [e[1] for e in exp][:40], out)
     # the argument of \url / the first argument of \href is the URL the link was attached to, verbatim
-    hrefs = [n for n in markup_nodes(tree) if n[0] == 4]
+    # (links of the CONSTRUCTED text: the constructors merge neighbouring links to the same URL into one)
+    hrefs = [n for n in markup_nodes(real if real is not None else tree) if n[0] == 4]
     if all(leaves(n) or not any(m[0] == 5 for m in markup_nodes(n)) for n in hrefs):
         want = [S(n[1]) for n in hrefs if leaves(n)]
         if links != want:
@@ -581,6 +582,12 @@ def oracle(fn, arg, out):
         # empty tagged or linked fragments render as nothing
         if tree[0] in (3, 4) and not leaves(tree) and not any(n[0] == 5 for n in markup_nodes(tree)) and o != '':
             return 'an empty tagged/linked fragment renders as %r' % (o,)
+        if b == 1:
+            try:
+                real = dump(build(tree, raw))
+            except Exception:
+                real = None
+            return oracle_latex(tree, o, real)
         return [oracle_html, oracle_latex, oracle_md, oracle_plain][b](tree, o)
     if fn == 2:
         b, s = arg
@@ -825,6 +832,9 @@ PINNED = [
     (1, [2, 0, Str_('\\`*_{}[]()#+-.!<>&')]),
     (1, [3, 0, T_(Str_('a'), Sym_('ndash'), Sym_('nbsp'), Sym_('newblock'), Tag_('em', Str_('b')))]),
     (1, [0, 0, Sym_('zzz')]),
+    (1, [1, 0, Prot_(HRef_('http://x/~u/', Str_('http://x/~u/')), HRef_('http://x/~u/', Str_('http://x/~u/')))]),
+    (1, [1, 0, Prot_(Prot_(), HRef_('/', Str_('/')), HRef_('/', Str_('&*(?(')))]),
+    (1, [1, 0, T_(HRef_('/', Str_('a')), T_(HRef_('/', Str_('b'))), HRef_('/', Str_('c'), ext=1))]),
     (4, ['a\\\\{b}']), (5, ['a\\\\{b}']), (5, ['Tables\\\\{and {Figures\\\\}}']), (5, ['\\textbackslash{x}']), (4, ['a\\{b\\}']), (5, ['{\\\\}{x}']),
     (2, [0, '&amp;']), (2, [0, '&lt;blink&gt;']), (2, [0, 'caf&#233;']), (2, [0, '&x;']), (2, [2, '\\*a\\\\']), (2, [2, '&amp;']),
     (2, [1, '\\&{\\%}']), (2, [3, 'a--b~c']), (1, [0, 0, Tag_('em', Str_('&lt;blink&gt;'), Str_(' caf&#233;'))]),
